@@ -252,6 +252,9 @@ where
         self.inner.rcu(|inner| {
             #[cfg(feature = "verif-hooks")]
             crate::verif::frim::pause("remove");
+            // rcu() re-runs this closure when another writer got in first;
+            // a value found in an outdated vector must not be reported.
+            found = None;
             let mut new = inner.deref().clone();
             if let Some(pos) = inner.iter().position(|(k, _v)| k == key) {
                 let (_, v) = new.remove(pos);
